@@ -9,7 +9,8 @@ for d in seeded/*/; do
   props=$(python3 -c "
 import json,sys
 m=json.load(open('$d/meta.json'))
-print(' '.join(x for x in (m.get('caught_by') or [m['property']]) if len(x) == 3 and x[0] == 'C'))")
+print('' if m.get('obsolete_since') else ' '.join(x for x in (m.get('caught_by') or [m['property']]) if len(x) == 3 and x[0] == 'C'))")
+  if [ -z "$props" ]; then echo "$id  obsolete (see meta.json): skipped"; continue; fi
   res=""
   for p in $props; do
     out=$(./evalseed.sh $d/patch.diff $p $B 2>&1)
